@@ -66,6 +66,12 @@ func (s *SpokFile) Env() []string {
 	return results
 }
 
+// ExpandGlobs performs glob expansion for every glob pattern in the whole file and saves
+// the list of filepaths to the Globs map, it is what Run does before running any task.
+func (s *SpokFile) ExpandGlobs() error {
+	return s.expandGlobs()
+}
+
 // expandGlobs gathers up all the glob patterns in every task in the spokfile and expands them
 // saving the results to the Globs map as e.g. {"**/*.go": ["file1.go", "file2.go"]}.
 func (s *SpokFile) expandGlobs() error {
